@@ -320,3 +320,17 @@ func tableLookup(res *CEResult, x *ssa.Lookup) (CVal, bool) {
 }
 
 func constantBool(b bool) constant.Value { return constant.MakeBool(b) }
+
+// TableKeys returns the constant keys (ExactString) of the package-level map table that v loads, for a value v
+// that is the map operand of a look-up.
+func TableKeys(v ssa.Value) (map[string]bool, bool) {
+	t := tableOfAddr(v)
+	if t == nil || t.n >= 0 {
+		return nil, false
+	}
+	out := map[string]bool{}
+	for k := range t.elems {
+		out[k] = true
+	}
+	return out, true
+}
